@@ -141,7 +141,7 @@ def assert_bundle_attr(b: "Bundle", val: Any) -> None:
         raise TypeError(msg)
 
 
-_banned = ["signals", "bundles", "namespace"]
+_banned = ["signals", "bundles", "namespace", "props"]
 
 
 @attrmagic.init
